@@ -1,6 +1,6 @@
 (* goimpl model runner (protocol part of C02/C04): trace acceptance against the extracted LTS of
    Model/CopyImpl.v.  One case per line:
-     <id> J<base64 case> G <K> <ext> <N> <succ_0> ... <succ_N-1> R <roots> E <event> ...
+     <id> J<base64 case> G <K> <ext> <N> <succ_0> ... <succ_N-1> R <roots> P <initial destination> E <event> ...
    Events (recorded by the harness around the real syncutil.Go / LimitedRegion / Tracker):
      go:<ptid>:<fid>  start:<tid>:<fid>:<node>  try:<tid>:<0|1>  ex:<tid>:<t|f|e>  find:<tid>:<1|e>
      end:<tid>  wait:<tid>:<m>:<ok|cancel|uncommitted>  startok:<tid>  startfail:<tid>
@@ -8,7 +8,9 @@
    Steps inside syncutil.Go are not observable; they are inferred: an item is dispatched (LDispatchAcq)
    at the latest when it or a later item of its frame starts; an item that never starts was skipped
    (LChildSkip, as soon as its frame is cancelled in the model) or never dispatched (LDispatchFail at
-   the return of Go).  Output: ACCEPT ret=<0|1> done=<nodes>   or   REJECT <event index> <event> <why>. *)
+   the return of Go).  The LTS is run WITH its destination (Model/CopyImplDst.v: Exists must answer by the
+   destination content, a successful push stores the node); closed = the destination was link-closed after every step.
+   Output: ACCEPT ret=<0|1> done=<nodes> dst=<nodes> closed=<1|0>   or   REJECT <event index> <event> <why>. *)
 exception Reject of string
 exception RejectAt of int * string * string
 
@@ -16,15 +18,19 @@ let csv_ints s = if s = "-" then [] else List.map int_of_string (String.split_on
 
 type finfo = { items : int array; mtask : int array; started : bool array; mutable disp : int; mframe : int }
 
-let process id k ext succs roots events =
+let process id k ext succs roots pres events =
   let succ_arr = Array.of_list (List.map (fun s -> List.map nat_of_int (csv_ints s)) succs) in
   let succ (x : nat) = let i = int_of_nat x in if i < Array.length succ_arr then succ_arr.(i) else [] in
-  let st = ref (init (nat_of_int k) ext (List.map nat_of_int roots)) in
+  (* the protocol state with the destination (Model/CopyImplDst.v); !st is its protocol component *)
+  let dst = ref (dinit (nat_of_int k) ext (List.map nat_of_int roots) (List.map nat_of_int pres)) in
+  let st = ref (!dst).ds in
+  let closed = ref (dclosedb succ (!dst).dd) in
   let nsteps = ref 0 in
   let maxhold = ref 0 in
   let do_step what l =
-    match step succ !st l with
-    | Some s' -> st := s'; incr nsteps;
+    match dstep succ !dst (DL l) with
+    | Some x' -> let s' = x'.ds in dst := x'; st := s'; incr nsteps;
+      if not (dclosedb succ x'.dd) then closed := false;
       let h = int_of_nat (holders s') in if h > !maxhold then maxhold := h
     | None -> raise (Reject what) in
   let tmap : (int, int) Hashtbl.t = Hashtbl.create 16 in
@@ -133,9 +139,12 @@ let process id k ext succs roots events =
   let n = Array.length succ_arr in
   let dn = ref [] in
   for i = n - 1 downto 0 do if is_done ((!st).tracker (nat_of_int i)) then dn := string_of_int i :: !dn done;
-  Printf.printf "%s ACCEPT ret=%d done=%s\n" id
+  let dl = List.sort_uniq compare (List.map int_of_nat (!dst).dd) in
+  Printf.printf "%s ACCEPT ret=%d done=%s dst=%s closed=%d\n" id
     (match result !st with Some true -> 1 | _ -> 0)
     (if !dn = [] then "-" else String.concat "," !dn)
+    (if dl = [] then "-" else String.concat "," (List.map string_of_int dl))
+    (if !closed then 1 else 0)
 
 let () =
   iter_lines (fun l ->
@@ -145,7 +154,7 @@ let () =
         let rec take i l acc = if i = 0 then (List.rev acc, l) else match l with x :: r -> take (i - 1) r (x :: acc) | [] -> failwith "short" in
         let succs, rest = take n rest [] in
         (match rest with
-         | "R" :: roots :: "E" :: events ->
+         | "R" :: roots :: "P" :: pres :: "E" :: events ->
            (* The value returned by syncutil.Go (context.Cause) is read before the harness can log
               `goret`.  When an ancestor context is cancelled in between, the log shows the cancellation
               first and a nil result afterwards.  Such a `goret:<f>:0` is moved back, one event at a time,
@@ -157,7 +166,7 @@ let () =
            let raced = ref false in
            let evs = Array.of_list events in
            let rec attempt tries =
-             try process id (int_of_string k) (ext = "1") succs (csv_ints roots) (Array.to_list evs)
+             try process id (int_of_string k) (ext = "1") succs (csv_ints roots) (csv_ints pres) (Array.to_list evs)
              with
              | RejectAt (i, ev, why) when tries > 0 && i > 0 && why = "return_value_of_Go_differs_from_the_model"
                                           && String.length ev > 6 && String.sub ev 0 6 = "goret:" && ev.[String.length ev - 1] = '0' ->
